@@ -529,7 +529,7 @@ func Check(h *History, rec *Recording, note func(name, text string)) *Report {
 		}
 		want := m.Docs[len(m.Docs)-1]
 		same, verdicts, details := compareDiags(want, expected(m.URI, want), p.diags)
-		if same && (contains(verdicts, "other") || contains(verdicts, "other-outside")) && len(p.diags) > 0 {
+		if same && (contains(verdicts, "other") || contains(verdicts, "other-outside") || contains(verdicts, "runes") && len(m.Docs) > 1) && len(p.diags) > 0 {
 			// same messages but unexplained ranges: maybe it is the content of another candidate
 			for _, od := range docsOfURI[m.URI] {
 				if od == want || expCache[od] == nil && od != m.Docs[0] {
@@ -769,13 +769,16 @@ func Check(h *History, rec *Recording, note func(name, text string)) *Report {
 			}
 		case explainLocations(primary, m.Line, m.Char, locs, Bytes):
 			sig = "position/definition/byte-columns-not-utf16"
-		case explainLocations(primary, m.Line, m.Char, locs, Runes):
-			sig = "position/definition/rune-columns-not-utf16"
 		default:
+			// the first entry of a several-entries didChange explains it (checked before the
+			// rune reading of the required content, which can coincide with it)
 			for _, alt := range m.Cands[1:] {
 				if explainLocations(alt, m.Line, m.Char, locs, U16) || explainLocations(alt, m.Line, m.Char, locs, Bytes) {
 					sig = sigMulti
 				}
+			}
+			if sig == "" && explainLocations(primary, m.Line, m.Char, locs, Runes) {
+				sig = "position/definition/rune-columns-not-utf16"
 			}
 			if sig == "" {
 				for _, d := range docsOfURI[m.URI] {
